@@ -157,3 +157,78 @@ package stgutg
 //@ prop C18
 //@ ensures asparsed: vc.GhostIs("yaml.out", *c) && vc.GhostIs("yaml.out", result)
 //@ assigns c
+
+// ---- C01 / C02: what each procedure builds and sends, in order (driver-level contract cases) ----
+// Ghost logs written by the assumed contracts of the callees: "ngap.built" (one record per
+// build-and-encode wrapper call: kind, AMF-UE-NGAP-ID, RAN-UE-NGAP-ID, PDU session id), "nas.built"
+// (one per NAS constructor call) and "nas.protect" (security header type, context available, new
+// context).  A run-time panic or an exit ends the procedure (nosafety); the functional
+// preconditions of the callees are proved under the properties that own them (assumepre).
+
+//@ func RegisterUE
+//@ prop C01
+//@ behavior trace
+//@ driver
+//@ assumepre
+//@ nosafety
+//@ ensures five: vc.GhostLen("ngap.built") == 5
+//@ ensures initial: trace.Is(vc.GhostBytes("ngap.built", 0), trace.InitialUEMessage, 0, ue.RanUeNgapId, 0)
+//@ ensures authresp: trace.Is(vc.GhostBytes("ngap.built", 1), trace.UplinkNASTransport, ue.AmfUeNgapId, ue.RanUeNgapId, 0)
+//@ ensures smc: trace.Is(vc.GhostBytes("ngap.built", 2), trace.UplinkNASTransport, ue.AmfUeNgapId, ue.RanUeNgapId, 0)
+//@ ensures ctxsetup: trace.Is(vc.GhostBytes("ngap.built", 3), trace.InitialContextSetupResponse, ue.AmfUeNgapId, ue.RanUeNgapId, 0)
+//@ ensures regcomplete: trace.Is(vc.GhostBytes("ngap.built", 4), trace.UplinkNASTransport, ue.AmfUeNgapId, ue.RanUeNgapId, 0)
+//@ ensures nas: vc.GhostLen("nas.built") == 5 && trace.Kind(vc.GhostBytes("nas.built", 0)) == trace.RegistrationRequest && trace.Kind(vc.GhostBytes("nas.built", 1)) == trace.AuthenticationResponse && trace.Kind(vc.GhostBytes("nas.built", 2)) == trace.RegistrationRequest && trace.Kind(vc.GhostBytes("nas.built", 3)) == trace.SecurityModeComplete && trace.Kind(vc.GhostBytes("nas.built", 4)) == trace.RegistrationComplete
+//@ ensures protect: vc.GhostLen("nas.protect") == 2 && trace.Is(vc.GhostBytes("nas.protect", 0), 4, 1, 1, 0) && trace.Is(vc.GhostBytes("nas.protect", 1), 2, 1, 0, 0)
+//@ ensures sameue: result0 == ue && ue.RanUeNgapId == old(ue.RanUeNgapId)
+
+//@ func EstablishPDU
+//@ prop C02
+//@ behavior trace
+//@ shape ue.Supi 20
+//@ requires supi: ids.IsImsiSupi(ue.Supi)
+//@ driver
+//@ assumepre
+//@ nosafety
+//@ ensures ngap: vc.GhostLen("ngap.built") == 2 && trace.Kind(vc.GhostBytes("ngap.built", 0)) == trace.UplinkNASTransport && trace.Kind(vc.GhostBytes("ngap.built", 1)) == trace.PDUSessionResourceSetupResponse
+//@ ensures ids: trace.A(vc.GhostBytes("ngap.built", 0)) == ue.AmfUeNgapId && trace.Bv(vc.GhostBytes("ngap.built", 0)) == ue.RanUeNgapId && trace.A(vc.GhostBytes("ngap.built", 1)) == ue.AmfUeNgapId && trace.Bv(vc.GhostBytes("ngap.built", 1)) == ue.RanUeNgapId
+//@ ensures nas: vc.GhostLen("nas.built") == 1 && trace.Kind(vc.GhostBytes("nas.built", 0)) == trace.PDUSessionEstablishmentRequest
+//@ ensures protect: vc.GhostLen("nas.protect") == 1 && trace.Is(vc.GhostBytes("nas.protect", 0), 2, 1, 0, 0)
+//@ ensures psi: trace.A(vc.GhostBytes("nas.built", 0)) == trace.C(vc.GhostBytes("ngap.built", 1)) && 1 <= trace.C(vc.GhostBytes("ngap.built", 1)) && trace.C(vc.GhostBytes("ngap.built", 1)) <= 15
+//@ ensures ue: ue.AmfUeNgapId == old(ue.AmfUeNgapId) && ue.RanUeNgapId == old(ue.RanUeNgapId)
+
+//@ func ReleasePDU
+//@ prop C02
+//@ behavior trace
+//@ shape ue.Supi 20
+//@ requires supi: ids.IsImsiSupi(ue.Supi)
+//@ driver
+//@ assumepre
+//@ nosafety
+//@ ensures ngap: vc.GhostLen("ngap.built") == 3 && trace.Kind(vc.GhostBytes("ngap.built", 0)) == trace.UplinkNASTransport && trace.Kind(vc.GhostBytes("ngap.built", 1)) == trace.PDUSessionResourceReleaseResponse && trace.Kind(vc.GhostBytes("ngap.built", 2)) == trace.UplinkNASTransport
+//@ ensures ids: vc.Forall(0, 3, func(k int) bool { return trace.A(vc.GhostBytes("ngap.built", k)) == ue.AmfUeNgapId && trace.Bv(vc.GhostBytes("ngap.built", k)) == ue.RanUeNgapId })
+//@ ensures nas: vc.GhostLen("nas.built") == 2 && trace.Kind(vc.GhostBytes("nas.built", 0)) == trace.PDUSessionReleaseRequest && trace.Kind(vc.GhostBytes("nas.built", 1)) == trace.PDUSessionReleaseComplete
+//@ ensures protect: vc.GhostLen("nas.protect") == 2 && trace.Is(vc.GhostBytes("nas.protect", 0), 2, 1, 0, 0) && trace.Is(vc.GhostBytes("nas.protect", 1), 2, 1, 0, 0)
+//@ ensures psi: trace.A(vc.GhostBytes("nas.built", 0)) == trace.C(vc.GhostBytes("ngap.built", 1)) && trace.A(vc.GhostBytes("nas.built", 1)) == trace.C(vc.GhostBytes("ngap.built", 1)) && 1 <= trace.C(vc.GhostBytes("ngap.built", 1)) && trace.C(vc.GhostBytes("ngap.built", 1)) <= 15
+
+//@ func ServiceRequest
+//@ prop C02
+//@ behavior trace
+//@ shape ue.Supi 20
+//@ requires supi: ids.IsImsiSupi(ue.Supi)
+//@ driver
+//@ assumepre
+//@ nosafety
+//@ ensures ngap: vc.GhostLen("ngap.built") == 2 && trace.Is(vc.GhostBytes("ngap.built", 0), trace.InitialUEMessage, 0, ue.RanUeNgapId, 0) && trace.Kind(vc.GhostBytes("ngap.built", 1)) == trace.InitialContextSetupResponseForService && trace.A(vc.GhostBytes("ngap.built", 1)) == ue.AmfUeNgapId && trace.Bv(vc.GhostBytes("ngap.built", 1)) == ue.RanUeNgapId
+//@ ensures nas: vc.GhostLen("nas.built") == 1 && trace.Kind(vc.GhostBytes("nas.built", 0)) == trace.ServiceRequest
+//@ ensures protect: vc.GhostLen("nas.protect") == 1 && trace.Is(vc.GhostBytes("nas.protect", 0), 2, 1, 0, 0)
+//@ ensures psi: 1 <= trace.C(vc.GhostBytes("ngap.built", 1)) && trace.C(vc.GhostBytes("ngap.built", 1)) <= 15
+
+//@ func DeregisterUE
+//@ prop C02
+//@ behavior trace
+//@ driver
+//@ assumepre
+//@ nosafety
+//@ ensures ngap: vc.GhostLen("ngap.built") == 2 && trace.Is(vc.GhostBytes("ngap.built", 0), trace.UplinkNASTransport, ue.AmfUeNgapId, ue.RanUeNgapId, 0) && trace.Is(vc.GhostBytes("ngap.built", 1), trace.UEContextReleaseComplete, ue.AmfUeNgapId, ue.RanUeNgapId, 0)
+//@ ensures nas: vc.GhostLen("nas.built") == 1 && trace.Kind(vc.GhostBytes("nas.built", 0)) == trace.DeregistrationRequest
+//@ ensures protect: vc.GhostLen("nas.protect") == 1 && trace.Is(vc.GhostBytes("nas.protect", 0), 2, 1, 0, 0)
